@@ -817,3 +817,132 @@ def run_linident(prog, ctx=None):
     parts = _parallel(_ident_root, len(roots))
     _collect(res, parts)
     return res
+
+
+# =====================================================================================================================
+# LINPATH (C08, C10): configuration paths — base is the payload of a buffer exactly when the HasArray flag is set
+# =====================================================================================================================
+PATH_RECORDS = ("mpt_path", "mpt::path")
+PATH_HASARRAY = 0x40
+
+
+def _path_root(i):
+    prog, roots, fileset = _G["prog"], _G["roots"], _G["fileset"]
+    f, variant = roots[i]
+    agg, undecided, stats = {}, set(), {}
+    invs = {r: buffer_inv for r in BUFFER_RECORDS}
+    an = LinAnalysis(prog, invariants=invs, contracts={})
+    an.global_inv = dict(GLOBAL_INV)
+    an.slot_contracts = {"detach": slot_detach, "get_flags": slot_pure, "addref": slot_pure}
+    an.post = {"_mpt_buffer_alloc": post_buffer_alloc}
+    an.max_returns = 8
+    an.state_budget = 6000
+    an.policy = (lambda fr, g: "inline" if (g.file in fileset or g.file.startswith("mptcore/array/")) else "modular")
+
+    def pre(an2, st, fr):
+        # the path parameter: with the array flag its base is the payload of a valid buffer, without it plain caller memory
+        for p in f.params:
+            pv = st.env.get(("v", fr.id, p["id"]))
+            if isinstance(pv, ObjPtr) and an2.objrec.get((pv.obj, pv.prefix)) in PATH_RECORDS:
+                fl = st.env.get(("f", pv.obj, pv.prefix + "flags"))
+                if not (isinstance(fl, Lin) and len(fl.t) == 1):
+                    continue
+                sym = list(fl.t)[0]
+                for fld in ("off", "len"):
+                    x = st.env.get(("f", pv.obj, pv.prefix + fld))
+                    if isinstance(x, Lin):
+                        st.add(Lin.const(PTRDIFF_MAX) - x)          # sizes of parts of one object
+                if variant == "array":
+                    st.env[("bits", sym)] = (PATH_HASARRAY, PATH_HASARRAY)
+                    st.add(fl - Lin.const(PATH_HASARRAY))
+                    b = an2.lazy_object(st, fr.f, "mpt_buffer", maybe_null=False, kind="L")
+                    reg = an2.payload_of(st, b.obj, "")
+                    st.env[("f", pv.obj, pv.prefix + "base")] = Ptr(reg, Lin.const(0), True)
+                    # the path text [off, off+len) lies inside the used data of its buffer
+                    off = st.env.get(("f", pv.obj, pv.prefix + "off"))
+                    ln = st.env.get(("f", pv.obj, pv.prefix + "len"))
+                    used = st.env.get(("f", b.obj, "_used"))
+                    if isinstance(off, Lin) and isinstance(ln, Lin) and isinstance(used, Lin):
+                        st.add(used - off - ln)
+                else:
+                    st.env[("bits", sym)] = (PATH_HASARRAY, 0)
+                    st.env.pop(("f", pv.obj, pv.prefix + "base"), None)
+    an.pre_run = pre
+    entry, fr, outs = an.analyse_root(f)
+    for k in ("states", "paths", "inlined", "slot_calls"):
+        stats[k] = an.stats.get(k, 0)
+    # obligations are attributed to the variant they were met in
+    for o in an.obls:
+        o.text = o.text
+    _merge_obls(an, f, agg, undecided, stats)
+    if an.over_budget:
+        undecided.add("LIN:%s:budget" % f.name)
+        return {"agg": agg, "undecided": undecided, "stats": stats, "assumed": an.assumed, "cut": f.name}
+    # exit: when the flag says array, base is the payload start of a buffer that satisfies its invariant
+    inv_ok, inv_det, nb = True, "", 0
+    for st, v in outs:
+        for p in f.params:
+            pv = st.env.get(("v", fr.id, p["id"]))
+            if not (isinstance(pv, ObjPtr) and an.objrec.get((pv.obj, pv.prefix)) in PATH_RECORDS):
+                continue
+            fl = st.env.get(("f", pv.obj, pv.prefix + "flags"))
+            bf = an.bits_of(st, fl) if isinstance(fl, Lin) else None
+            if isinstance(fl, Lin) and fl.is_const():
+                bf = (0xff, fl.c)
+            if not bf or not (bf[0] & PATH_HASARRAY) or not (bf[1] & PATH_HASARRAY):
+                continue         # flag clear or unknown: base is caller memory, nothing to show
+            nb += 1
+            base = st.env.get(("f", pv.obj, pv.prefix + "base"))
+            bad = []
+            if isinstance(base, Ptr) and base.region is None:
+                pass             # null base with the flag: tolerated by every reader (tested first)
+            elif not (isinstance(base, Ptr) and base.region is not None and st.env.get(("powner", base.region.id)) is not None and st.entails_eq(base.off, Lin.const(0))):
+                bad.append("base is the payload start of a buffer")
+            else:
+                own = st.env[("powner", base.region.id)]
+                bad.extend(t for t, o in buffer_inv(an, st, own[0], own[1], False) if not o)
+                off = st.env.get(("f", pv.obj, pv.prefix + "off"))
+                ln = st.env.get(("f", pv.obj, pv.prefix + "len"))
+                used = st.env.get(("f", own[0], own[1] + "_used"))
+                if not (isinstance(off, Lin) and isinstance(ln, Lin) and isinstance(used, Lin) and st.entails(used - off - ln)):
+                    bad.append("off + len <= _used of the buffer")
+            if bad:
+                if st.joined:
+                    undecided.add("LIN:%s:INV" % f.name)
+                else:
+                    inv_ok = False
+                    inv_det = "%s (array flag set): %s not shown at return on path %s" % (p["n"], ", ".join(bad), " / ".join(st.trail[-8:]))
+    if nb:
+        agg["LIN:%s:INV" % f.name] = [inv_ok, FRef(f), f.line, inv_det, True]
+    return {"agg": agg, "undecided": undecided, "stats": stats, "assumed": an.assumed, "cut": None}
+
+
+# path functions whose accesses are justified by what is stored *in* the path text (element lengths of the binary format, the
+# position of the last separator), not by the fields: a linear relation over the fields cannot decide them
+LINPATH_EXCLUDED = {
+    "mpt_path_add": "indexes by element lengths it trusts the caller to have validated (add <= data behind the path)",
+    "mpt_path_del": "walks back by the element length stored in the text / scans for the separator",
+    "mpt_path_last": "same: length byte of the last element / separator scan",
+    "mpt_path_next": "same: `first` and the length byte behind the first element",
+}
+
+
+def run_linpath(prog, ctx=None):
+    res = Result("LINPATH")
+    # all path primitives of the program are analysed (they call each other); findings are attributed by file as usual
+    files = sorted(x for x in prog.by_file if x.startswith("mptcore/config/path_") and x.endswith(".c"))
+    funcs = sorted([f for f in prog.funcs_in(files) if not f.nocfg], key=lambda f: (f.file, f.line))
+    roots = []
+    for f in funcs:
+        if f.name in LINPATH_EXCLUDED:
+            continue
+        haspath = any(f.T(f.T(p["t"]).get("to")).get("name") in PATH_RECORDS for p in f.params if f.T(p["t"]).get("k") == "ptr")
+        if haspath:
+            roots.append((f, "array"))
+            roots.append((f, "plain"))
+    if len(roots) < 8:
+        raise Broken("LINPATH: only %d path functions found" % (len(roots) // 2))
+    _G.update(prog=prog, roots=roots, fileset=set(files))
+    parts = _parallel(_path_root, len(roots))
+    _collect(res, parts)
+    return res
